@@ -378,7 +378,7 @@ PROPS = {
                    "runs out of fuel on ANY event list (readCandidates_total). For the code as it is in /repo: the same equality "
                    "under the hypothesis that no annotated active statement has other content "
                    "(candidates_eq_select_pinned_partial) and counter-examples to the full statement "
-                   "(other_content_fails_read_cex, then_accept_fails_read_cex, extra_then_selected_cex).",
+                   "(other_content_fails_read_cex, then_accept_fails_read_cex, extra_then_selected_cex). Attribute order: for a statement with at most one annotation the selection, and what the reader returns for the whole configuration, is the same for every permutation of its attributes (selected_attr_perm, readCandidates_attr_order).",
         level_note="Theorems are about Model/Fetch.lean over quick-xml event lists; tokenisation, namespace resolution, attribute "
                    "unescaping and read_text spans are observed by the harness and trusted. The rpsl parser and "
                    "quick_xml::escape::unescape enter as oracles (theorems hold for every oracle; the run uses the real "
